@@ -81,6 +81,7 @@ type Machine struct {
 	randCtr    uint64
 	urls       map[string]*urlDecl
 	urlOrigin  map[*value]*urlOrigin
+	known      map[string]bool // agentF1: renderings of the asserted path-condition conjuncts
 	c19s       *c19State
 	xsolver    *Solver // second solver (thorough tier): cross-checks every unsat verdict
 }
@@ -137,6 +138,10 @@ func (m *Machine) assume(t *Term) {
 	}
 	m.pc = append(m.pc, t)
 	m.solver.Assert(t)
+	if m.known == nil {
+		m.known = map[string]bool{}
+	}
+	m.known[t.String()] = true
 }
 
 // decide resolves a symbolic condition into a concrete branch, forking the
@@ -162,6 +167,14 @@ func (m *Machine) decideN(conds []*Term) int {
 		m.trace = append(m.trace, ch)
 		m.assume(conds[ch])
 		return ch
+	}
+	// agentF1: an alternative that is literally part of the path condition is the only feasible one
+	// (alternatives are mutually exclusive): no solver query needed
+	for i, c := range conds {
+		if !c.IsConst() && m.known[c.String()] {
+			m.trace = append(m.trace, i)
+			return i
+		}
 	}
 	// new decision: find feasible alternatives
 	var feas []int
